@@ -1,4 +1,4 @@
-(* C08 — Server never mixes archive versions within one answer (tile requests).
+(* C08 — Server never mixes archive versions within one answer (tile, metadata and TileJSON requests).
    The server is the labelled transition system of Model/Server.v; [reach] is closed under ANY interleaving of
    request arrivals, loop messages, bucket reads, failures, evictions, replacements and deletions. *)
 From Coq Require Import NArith List.
@@ -12,11 +12,19 @@ Context `{V:Version}.
 Hypothesis root_off_nz : forall v, fst (root v) <> 0.
 Hypothesis leaf_base_nz : forall v lo, leaf_base v + lo <> 0.
 
-(* every completed tile request: a 200 is exactly what ONE version of the archive's history answers (header fields,
-   directories, offset and length all of that version); a 204 / 400 is the answer of one version of the history;
-   404 / 500 carry no data *)
+(* every completed request: a 200 is exactly what ONE version of the archive's history answers (for a tile: header fields, directories,
+   offset and length all of that version; for /metadata and TileJSON: the header of that version and the metadata section it declares);
+   a 204 / 400 is the answer of one version of the history; 404 / 500 carry no data *)
 Theorem C08_single_version : forall s rid q r, reach s -> In (rid, q, r) (dones s) -> good_done (hist s) q r.
 Proof. intros s rid q r R Hin. exact (C08_single_version_tile root_off_nz leaf_base_nz s rid q r R Hin). Qed.
+
+(* the metadata endpoints spelled out: the bytes answered are the metadata section of the very version whose header located it *)
+Theorem C08_single_version_metadata : forall s rid q v o l, reach s -> t_kind q <> 0 -> In (rid, q, R200 v o l) (dones s) ->
+  In (t_name q, v) (hist s) /\ o = meta_off v /\ l = meta_len v.
+Proof.
+  intros s rid q v o l R Hk Hin. pose proof (C08_single_version s rid q _ R Hin) as G. cbn in G. destruct G as [Hh Ha].
+  split; [exact Hh|]. unfold answer in Ha. destruct (N.eqb_spec (t_kind q) 0) as [E|_]; [contradiction|]. cbn in Ha. inversion Ha. auto.
+Qed.
 
 (* the global invariant holds in every reachable state (tags determine versions; cache entries, pending responses and
    handler states are well-keyed; a waiter can only be handed values of the key it asked for) *)
@@ -29,5 +37,6 @@ Proof. intros ls s' H. eapply run_reach; [apply reach_init|exact H]. Qed.
 End C08.
 
 Print Assumptions C08_single_version.
+Print Assumptions C08_single_version_metadata.
 Print Assumptions C08_invariant.
 Print Assumptions C08_exec_sound.
